@@ -319,11 +319,11 @@ Definition IsSorted (l : nat) : M bool :=
 Fixpoint sins (x : nat * Z) (l : list (nat * Z)) : list (nat * Z) :=
   match l with
   | [] => [x]
-  | y :: l' => if lt (snd x) (snd y) then x :: y :: l' else y :: sins x l'
+  | y :: l' => if lt (snd y) (snd x) then y :: sins x l' else x :: y :: l'
   end.
 Definition stable_sort (l : list (nat * Z)) : list (nat * Z) := fold_right sins [] l.
-(* fold_right inserts the LAST element first, and an element goes after every element it is not lt:
-   equal keys keep their relative order. *)
+(* fold_right inserts the LAST element first; an (earlier) element x passes only the elements that
+   are lt it and stops in front of the first one that is not: equal keys keep their relative order. *)
 
 Section QuickWith.
 Variable sorter : list (nat * Z) -> list (nat * Z).
